@@ -32,7 +32,8 @@ func doCall(re *coregex.Regex, c sx.Call) (out string) {
 			out = "panic: " + s
 		}
 	}()
-	h := []byte(c.Hay)
+	hs := sx.Expand(c.Hay)
+	h := []byte(hs)
 	switch c.API {
 	case "Match":
 		return strconv.FormatBool(re.Match(h))
@@ -41,13 +42,22 @@ func doCall(re *coregex.Regex, c sx.Call) (out string) {
 	case "FindSubmatchIndex":
 		return bx.Show(re.FindSubmatchIndex(h))
 	case "FindAllIndex":
-		return bx.Show(re.FindAllIndex(h, -1))
+		all := re.FindAllIndex(h, -1)
+		if len(all) > 64 {
+			// large inputs: a digest instead of tens of thousands of spans
+			d := 0
+			for _, m := range all {
+				d = d*31 + m[0]*7 + m[1]
+			}
+			return fmt.Sprintf("%d matches, digest %d, first %v last %v", len(all), d, all[0], all[len(all)-1])
+		}
+		return bx.Show(all)
 	case "Count":
 		return strconv.Itoa(re.Count(h, -1))
 	case "ReplaceAllString":
-		return strconv.Quote(re.ReplaceAllString(c.Hay, "<$0>"))
+		return strconv.Quote(re.ReplaceAllString(hs, "<$0>"))
 	case "Split":
-		return bx.Show(re.Split(c.Hay, -1))
+		return bx.Show(re.Split(hs, -1))
 	case "AllIndex":
 		var ms [][2]int
 		for m := range re.AllIndex(h) {
